@@ -88,6 +88,37 @@ func init() {
 					}, Rel: token.EQL}.Check(r)
 				}
 			}),
+			rule("R07d", "the single-step lookup skips every tombstone it meets", 2, func(r *Run) {
+				// nextKeyValue (count==1, ListSeek): decided with Valid() assumed true throughout — the
+				// iterator is not moved between the skip loop and the emptiness test, so both Valid() calls
+				// agree; what is returned must be an entry the tombstone test has just called live, and every
+				// move of the iterator invalidates that knowledge.
+				fn := lh + "nextKeyValue"
+				moves := core.Names(dbp+"IteratorSeeker.Next", dbp+"IteratorSeeker.Seek", dbp+"IteratorSeeker.Rewind")
+				sp := &core.FlowSpec{
+					Assume: func(c *core.Ctx, e ast.Expr) core.Tri {
+						if core.CallAtom([]string{dbp + "Iterator.Valid"})(c, e) {
+							return core.True
+						}
+						return core.Unknown
+					},
+					Calls: []core.CallGuard{isFalse("live-entry", dbp+"isdeleted")},
+					Nodes: []core.NodeGen{{Fact: "live-entry", Kill: func(c *core.Ctx, n *core.GNode) bool {
+						for _, call := range core.CallsIn(n.Ast) {
+							if moves.Has(core.Callee(c.Info, call)) {
+								return true
+							}
+						}
+						return false
+					}}},
+				}
+				core.Dominated{Fn: fn, Spec: sp, Sink: core.SinkPred{Label: "return of a found entry", Match: func(fl *core.Flow, n *core.GNode) bool {
+					rs, ok := n.Ast.(*ast.ReturnStmt)
+					return ok && len(rs.Results) == 1 && !isNilLit(fl.C, rs.Results[0])
+				}}, Need: []Fact{"live-entry"}, Min: 1}.Check(r)
+				core.CallArgs{Fn: fn, Callee: []string{dbp + "isdeleted"}, What: "tests the value the iterator stands on",
+					Args: map[int]core.ExprPred{0: core.CallsAny(dbp + "Iterator.Value")}, Min: 1}.Check(r)
+			}),
 			rule("R07b", "continue after the last returned key", 3, func(r *Run) {
 				fn := lh + "IteratorScan"
 				core.Dominated{Fn: fn, Spec: &core.FlowSpec{Conds: []core.CondGuard{core.BoolGuard("on-start-key", core.CallAtomSym("bytes.Equal", core.CallsAny(dbp+"Iterator.Key"), core.IsObj("param:1")), true)}},
